@@ -314,14 +314,17 @@ func (p *Process) Run() {
 	// Tasks per process, see #81.
 	startedTasks := taskQueue{}
 
+	vhook("proc.start", "proc", p.Name(), "cores", p.CoresPerTask)
 	var nextTask *Task
 	tasks := p.createTasks()
 	for tasks != nil || len(startedTasks) > 0 {
 		select {
 		case t, ok := <-tasks:
 			if !ok {
+				vhook("tasks.closed", "proc", p.Name())
 				tasks = nil
 			} else {
+				vhook("task.take", "proc", p.Name(), "task", vTask(t))
 				// Sending FIFOs for the task
 				for oname, oip := range t.OutIPs {
 					if oip.doStream {
@@ -329,17 +332,20 @@ func (p *Process) Run() {
 							p.Failf("Fifo file exists, so exiting (clean up fifo files before restarting the workflow): %s", oip.FifoPath())
 						}
 						oip.CreateFifo()
+						vhook("fifo.create", "proc", p.Name(), "path", oip.FifoPath())
 						p.Out(oname).Send(oip)
 					}
 				}
 
 				// Execute task in separate go-routine
+				vhook("task.spawn", "proc", p.Name(), "task", vTask(t))
 				go t.Execute()
 
 				startedTasks = append(startedTasks, t)
 			}
 		case <-startedTasks.NextTaskDone():
 			nextTask, startedTasks = startedTasks[0], startedTasks[1:]
+			vhook("done.recv", "proc", p.Name(), "task", vTask(nextTask))
 			for oname, oip := range nextTask.OutIPs {
 				if !oip.doStream { // Streaming (FIFO) outputs have been sent earlier
 					p.Out(oname).Send(oip)
@@ -350,10 +356,12 @@ func (p *Process) Run() {
 					if err != nil {
 						p.Failf("Could not remove Fifo path %s", oip.FifoPath())
 					}
+					vhook("fifo.remove", "proc", p.Name(), "path", oip.FifoPath())
 				}
 			}
 		}
 	}
+	vhook("proc.exit", "proc", p.Name())
 }
 
 // createTasks is a helper method for Run that creates tasks based on incoming
@@ -402,6 +410,7 @@ func (p *Process) createTasks() (ch chan *Task) {
 				break
 			}
 		}
+		vhook("ct.end", "proc", p.Name())
 	}()
 	return ch
 }
